@@ -255,7 +255,10 @@ func WriteRegressionFile(dir string) error {
 	f.Violation.Model = c.Answer
 	f.Violation.Real = realSummary(c)
 	b, _ := json.MarshalIndent(f, "", " ")
-	return os.WriteFile(filepath.Join(dir, FormerF61+".json"), append(b, '\n'), 0o644)
+	if err := os.WriteFile(filepath.Join(dir, FormerF61+".json"), append(b, '\n'), 0o644); err != nil {
+		return err
+	}
+	return writeRegressionFileF62(dir)
 }
 
 // checkRegressions: every former witness must PASS on the real code (a failure is a violation whose
@@ -344,5 +347,273 @@ func checkRegressions(run *report.Run) error {
 		return nil
 	}
 	run.Count("replays/F61.json:replayed-as-regression")
+	return nil
+}
+
+// ---- the former witness of the repaired finding F62, as regressions ----
+//
+// F62 (repaired by 8b400b4): a Content-Type in which two registered keys with different readers occur
+// (application/xml; x="application/json") selected its reader by Go map iteration order, so a faithful
+// XML body sometimes failed with a JSON syntax error, and identical reads of one history differed.
+// The reverse lookup of accessorAt now answers with the key that occurs first in the value (the
+// longest of those that start there).  Every read of the histories below lies in the former class
+// (Entity.f62) and must read back equal to the value written, on every run; a failure is an
+// ordinary violation with the history as its replay.
+// Lean: Restful.Props.C16_F62_fixed (the toy twin), C16_select_media, C16_lookup_function, C16_selected_round.
+
+// CommittedRegressionF62 is the id of the regression that replays/F62.json records: the former
+// witness, 12 identical reads of the XML writer's output under application/xml; x="application/json".
+const CommittedRegressionF62 = "xml-body-content-type-names-json-too"
+
+const theoremsF62 = "Restful.Props.C16_F62_fixed, C16_select_media, C16_lookup_function, C16_selected_round"
+
+// RegressionsF62 builds the histories (Former = every read: all lie in the former class).
+func RegressionsF62() ([]Regression, error) {
+	v := Value{Type: "flat", V: Flat{I64: 5, S: "x"}, NewTarget: func() interface{} { return &Flat{} }, Deep: true, XMLOK: true}
+	jw, jct, err := Write("json", v.V, false, "WriteEntity")
+	if err != nil {
+		return nil, err
+	}
+	xw, xct, err := Write("xml", v.V, false, "WriteEntity")
+	if err != nil {
+		return nil, err
+	}
+	read := func(kind, coding, ct string) Read {
+		w, base := jw, jct
+		if kind == "xml" {
+			w, base = xw, xct
+		}
+		body := append([]byte{}, w...)
+		switch coding {
+		case "gzip":
+			body = gzipBytes(w, gzip.DefaultCompression)
+		case "deflate":
+			body = zlibBytes(w)
+		}
+		return Read{Kind: kind, Val: v, API: "WriteEntity", BaseCT: base, Coding: coding, Level: gzip.DefaultCompression, Status: "good", CT: ct, CE: coding,
+			Written: append([]byte{}, w...), Body: body, Faithful: true}
+	}
+	xmlNamesJSON := xct + `; x="` + mimeJSON + `"`
+	jsonNamesXML := jct + `; x="` + mimeXML + `"`
+	all := func(n int) (out []int) {
+		for i := 0; i < n; i++ {
+			out = append(out, i)
+		}
+		return out
+	}
+	var out []Regression
+	// the committed witness: 12 identical plain reads on the sync.Pool provider (before the repair some
+	// of the 12 went to the JSON reader and failed, at positions that changed from run to run)
+	h := History{Cfg: Cfg{Provider: "sync", Registry: BuiltinRegistry()}}
+	for k := 0; k < 12; k++ {
+		h.Reads = append(h.Reads, read("xml", "", xmlNamesJSON))
+	}
+	out = append(out, Regression{ID: CommittedRegressionF62, H: h, Former: all(12)})
+	// the mirrored Content-Type: the JSON writer's output, gzip coded, one pooled reader
+	h = History{Cfg: Cfg{Provider: "bounded", Cap: 1, Registry: BuiltinRegistry()}}
+	for k := 0; k < 8; k++ {
+		h.Reads = append(h.Reads, read("json", "gzip", jsonNamesXML))
+	}
+	out = append(out, Regression{ID: "json-body-content-type-names-xml-too", H: h, Former: all(8)})
+	// both spellings and all codings interleaved on one provider: each read goes to the reader of ITS media type
+	h = History{Cfg: Cfg{Provider: "bounded", Cap: 2, Registry: BuiltinRegistry()}}
+	for k := 0; k < 4; k++ {
+		h.Reads = append(h.Reads, read("xml", "gzip", xmlNamesJSON), read("json", "", jsonNamesXML), read("xml", "deflate", xmlNamesJSON), read("json", "deflate", jsonNamesXML))
+	}
+	out = append(out, Regression{ID: "both-spellings-interleaved", H: h, Former: all(16)})
+	// no Content-Type, and a default request content type that names both keys
+	h = History{Cfg: Cfg{Provider: "sync", Default: xmlNamesJSON, Registry: BuiltinRegistry()}}
+	for k := 0; k < 8; k++ {
+		h.Reads = append(h.Reads, read("xml", "", ""))
+	}
+	out = append(out, Regression{ID: "default-request-content-type-names-both", H: h, Former: all(8)})
+	return out, nil
+}
+
+func regressionViolationF62(kind, what string, c *Case) report.Violation {
+	v := regressionViolation(kind, what, c)
+	v.Theorem = theoremsF62
+	return v
+}
+
+// judgeRegressionF62 runs one history of the former class F62: every read must be in the class and
+// must read back equal; a non-empty `what` is its failure.
+func judgeRegressionF62(h History) (c *Case, kind, what string, err error) {
+	if c, err = RunOne(h); err != nil {
+		return nil, "", "", err
+	}
+	issues, err := c.Judge()
+	if err != nil {
+		return nil, "", "", err
+	}
+	for _, is := range issues {
+		if is.Kind == "spec" {
+			return c, "counterexample", fmt.Sprintf("read %d: %s", is.Index, is.What), nil
+		}
+	}
+	for i, r := range c.Reads {
+		if !r.F62 {
+			return nil, "", "", fmt.Errorf("read %d of a regression of the repaired finding F62 is not in its class (Entity.f62): %s", i, c.Line)
+		}
+		if r.Real.Key2() != "ok:"+short(Canon(r.Read.Val.V)) {
+			return c, "counterexample", fmt.Sprintf("read %d: a faithful %s body under Content-Type %q (default %q) did not read back equal: %s", i, r.Read.Kind, r.Read.CT, h.Cfg.Default, r.Real.Key2()), nil
+		}
+	}
+	for _, is := range issues {
+		return c, "correspondence", fmt.Sprintf("read %d: the predicate holds but model and implementation disagree: %s", is.Index, is.What), nil
+	}
+	return c, "", "", nil
+}
+
+// regressionLinesF62: for the committed regression, the protocol line with the answers the
+// property demands (what the repaired code gives: the value, 12 times) and a line with answers as
+// recorded before the repair (reads 0 and 1 handed to the JSON reader: an error); the predicate
+// must hold on the first and reject the second.
+func regressionLinesF62() (lines []string, expect []int, err error) {
+	rs, err := RegressionsF62()
+	if err != nil {
+		return nil, nil, err
+	}
+	g := rs[0]
+	for variant := 0; variant < 2; variant++ {
+		n := sx.K("entity", sx.N(0), g.H.Cfg.Sx())
+		for i, rd := range g.H.Reads {
+			or := OracleOf(rd)
+			if !or.ID.XDoc.OK || or.ID.JDoc.OK {
+				return nil, nil, fmt.Errorf("F62 regression: the oracle does not see an XML document that is no JSON document")
+			}
+			o := Obs{Class: "ok", Canon: or.ID.XDoc.Canon, Events: "", Rid: -1}
+			if variant == 1 && i < 2 {
+				o = Obs{Class: "err", Events: "", Rid: -1}
+			}
+			n.List = append(n.List, ReadSx(rd, or, o, o))
+		}
+		lines = append(lines, n.String())
+	}
+	return lines, []int{1, 0}, nil
+}
+
+func writeRegressionFileF62(dir string) error {
+	rs, err := RegressionsF62()
+	if err != nil {
+		return err
+	}
+	c, kind, what, err := judgeRegressionF62(rs[0].H)
+	if err != nil {
+		return err
+	}
+	if kind != "" {
+		return fmt.Errorf("the F62 regression fails on the real code (%s): %s", kind, what)
+	}
+	lines, expect, err := regressionLinesF62()
+	if err != nil {
+		return err
+	}
+	if c.Line != lines[0] {
+		return fmt.Errorf("what the real code does today is not the line the property demands:\n%s\n%s", c.Line, lines[0])
+	}
+	var f RegressionFile
+	f.Property, f.Finding, f.Status, f.Theorem = "C16", FormerF62, "fixed "+RepairF62, "Restful.Props.C16_F62_fixed"
+	f.Expect = "PASS: line 0 carries the answers the real code gives today (the value written, 12 times; Spec.c16Holds = 1, the model agrees), line 1 answers as recorded before the repair (reads 0 and 1 handed to the JSON reader: *json.SyntaxError; Spec.c16Holds = 0); `bin/check C16` re-executes the history of `human` on the real code on every run and reports a VIOLATION with this history as replay if one of the reads does not return the value written"
+	f.ExpectSpec = expect
+	f.Violation.Kind = "regression"
+	f.Violation.What = "former witness of F62, repaired by " + RepairF62 + ", kept as a regression that must pass: the XML writer's output for Flat{I64:5,S:\"x\"} read 12 times under Content-Type: application/xml; x=\"application/json\" (built-in registry only) — accessorAt finds no exact key and both built-in keys occur in the value; the reader used to be whichever Go's map iteration met first (some of the 12 identical reads went to the JSON reader and failed, at positions that changed from run to run); the reverse lookup now answers with the registered key that occurs first in the value (the longest of those that start there): application/xml, every time"
+	f.Violation.Case = lines
+	f.Violation.Human, _ = json.Marshal(Human(c))
+	f.Violation.Model = c.Answer
+	f.Violation.Real = realSummary(c)
+	b, _ := json.MarshalIndent(f, "", " ")
+	return os.WriteFile(filepath.Join(dir, FormerF62+".json"), append(b, '\n'), 0o644)
+}
+
+// checkRegressionsF62: every history of the former class must PASS on the real code (a failure is
+// a violation whose replay is that history) — each history is run several times, the defect used
+// to depend on map iteration order —, the predicate must still reject what the unrepaired code
+// answered, and the committed replays/F62.json is re-executed and must say the same.
+func checkRegressionsF62(run *report.Run) error {
+	rs, err := RegressionsF62()
+	if err != nil {
+		return err
+	}
+	failed := 0
+	for _, g := range rs {
+		ok := true
+		for t := 0; t < 5 && ok; t++ {
+			c, kind, what, err := judgeRegressionF62(g.H)
+			if err != nil {
+				return err
+			}
+			run.Evaluations += len(g.H.Reads)
+			if kind != "" {
+				ok = false
+				run.Count("regression-F62-" + g.ID + "-FAILS")
+				if failed++; failed <= 3 {
+					run.AddViolation(regressionViolationF62(kind, fmt.Sprintf("regression %s of the repaired finding F62 (%s: the reverse lookup of accessorAt answers with the registered key that occurs first in the value): %s", g.ID, RepairF62, what), c))
+				}
+			}
+		}
+		if ok {
+			run.Count("regression-F62-" + g.ID + "-passes")
+		}
+	}
+	lines, expect, err := regressionLinesF62()
+	if err != nil {
+		return err
+	}
+	got, err := specBits(lines)
+	if err != nil {
+		return err
+	}
+	for i := range lines {
+		if got[i] != expect[i] {
+			return fmt.Errorf("Spec.c16Holds = %d, expected %d, on the recorded answers of the regression of F62: %s", got[i], expect[i], lines[i])
+		}
+	}
+	path := filepath.Join(report.Root, "replays", FormerF62+".json")
+	b, err := os.ReadFile(path)
+	if err != nil {
+		return fmt.Errorf("replays/F62.json (regression of the repaired finding F62) cannot be read: %v", err)
+	}
+	var f RegressionFile
+	if err := json.Unmarshal(b, &f); err != nil {
+		return fmt.Errorf("replays/F62.json: %v", err)
+	}
+	if len(f.Violation.Case) == 0 || len(f.Violation.Case) != len(f.ExpectSpec) {
+		return fmt.Errorf("replays/F62.json is not a regression record (expect_spec missing or of the wrong length): regenerate it with VERIF_C16_WRITE_REPLAYS=<dir> bin/check C16")
+	}
+	bits, err := specBits(f.Violation.Case)
+	if err != nil {
+		return err
+	}
+	for i, l := range f.Violation.Case {
+		if bits[i] != f.ExpectSpec[i] {
+			return fmt.Errorf("replays/F62.json line %d: Spec.c16Holds = %d, the file expects %d: %s", i, bits[i], f.ExpectSpec[i], l)
+		}
+		if i >= len(lines) || l != lines[i] {
+			return fmt.Errorf("replays/F62.json line %d is not the regression the check runs: regenerate it with VERIF_C16_WRITE_REPLAYS=<dir> bin/check C16", i)
+		}
+	}
+	var hu humanHistory
+	if err := json.Unmarshal(f.Violation.Human, &hu); err != nil {
+		return fmt.Errorf("replays/F62.json human: %v", err)
+	}
+	h, err := hu.history(path)
+	if err != nil {
+		return err
+	}
+	if len(h.Reads) != len(rs[0].H.Reads) || !bytes.Equal(h.Reads[0].Body, rs[0].H.Reads[0].Body) || h.Reads[0].CT != rs[0].H.Reads[0].CT {
+		return fmt.Errorf("replays/F62.json does not carry the history of the regression %s: regenerate it", CommittedRegressionF62)
+	}
+	c, kind, what, err := judgeRegressionF62(h)
+	if err != nil {
+		return err
+	}
+	run.Evaluations += len(h.Reads)
+	if kind != "" {
+		run.Count("replays/F62.json:FAILS")
+		run.AddViolation(regressionViolationF62(kind, fmt.Sprintf("replays/F62.json, the former witness of the finding F62 repaired by %s, re-executed on the real code: %s", RepairF62, what), c))
+		return nil
+	}
+	run.Count("replays/F62.json:replayed-as-regression")
 	return nil
 }
